@@ -154,9 +154,9 @@ type nsRun struct {
 	clients  map[int]*net.UDPConn
 	reqOp    []int
 	reqCl    []int
-	loopA    *arrival            // loop blocked at "recv" or "dispatch"
-	handlers map[int]*arrival    // request -> its handler's pending arrival
-	tops     []string            // name-table calls since last check
+	loopA    *arrival         // loop blocked at "recv" or "dispatch"
+	handlers map[int]*arrival // request -> its handler's pending arrival
+	tops     []string         // name-table calls since last check
 	tmu      sync.Mutex
 	stopDone chan struct{}
 	stopAt   time.Time
